@@ -1,9 +1,14 @@
 #!/bin/bash
-# run the quick check of each seeded mutant's property against it; results in seeded/RESULTS.txt
+# tools/eval_seeded.sh [first [last]]: run the quick check of each seeded change's property against it
+# (in a scratch worktree, /repo is not touched); results are appended to seeded/RESULTS-<first>.txt
 cd /verif
-: > seeded/RESULTS.txt
+first=${1:-1}; last=${2:-999}
+out=seeded/RESULTS-wave-$first.txt
+: > $out
 for d in seeded/s*; do
-  id=$(basename $d); prop=$(python3 -c "import json;print(json.load(open('$d/meta.json'))['property'])")
+  id=$(basename $d); n=$(echo $id | sed 's/^s0*\([0-9]*\)-.*/\1/')
+  [ "$n" -ge "$first" ] && [ "$n" -le "$last" ] || continue
+  prop=$(python3 -c "import json;print(json.load(open('$d/meta.json'))['property'])")
   r=$(WALL=${WALL:-14} tools/try_mutant.sh /verif/$d/patch.diff $prop 2>&1 | tail -1)
-  echo "$id $r" | cut -c1-400 >> seeded/RESULTS.txt
+  echo "$id $r" | cut -c1-400 >> $out
 done
